@@ -23,6 +23,7 @@ func init() {
 			c.run("C12-K", "PAIR: panic containment inventory", c12Containment)
 			c.run("C12-U", "GUARD-DOM: the escape decoder never writes past / into an empty output buffer", c12Unescape)
 			c.run("C12-N2", "GUARD-DOM: results that may be nil without an error are used only after a nil test", c12NilableResults)
+			c.run("C12-D3", "TYPESTATE: a pointer field a callee may clear is not dereferenced after the call without a new test", c12NilAfterCall)
 			c.run("C12-D", "CONTRADICTION: no dereference / interface call on the edge where the same value was just found nil", c12NilContradiction)
 			c.run("C12-S", "shared with C20-R1/R2: rendering clamps", func(c *Ctx) { c20R1(c); c20R2(c) })
 		})
